@@ -184,9 +184,10 @@ theorem go_eq (now : Int) (c : Coll) (ix : Index) :
       | .error e => (c, .error e)
       | .ok c1 =>
         (match ix.ttl with
-         | some _ => ({ c1 with indexes := putIx ix c1.indexes, ttlIndexes := putIx ix c1.ttlIndexes },
-                      .ok ix.name)
-         | none => ({ c1 with indexes := putIx ix c1.indexes }, .ok ix.name)) := rfl
+         | some _ => ({ c1 with indexes := putIx ix c1.indexes, ttlIndexes := putIx ix c1.ttlIndexes,
+                                forceCreated := true }, .ok ix.name)
+         | none => ({ c1 with indexes := putIx ix c1.indexes, forceCreated := true },
+                    .ok ix.name)) := rfl
 
 theorem preCreate_ok {now : Int} {c c1 : Coll} {ix : Index} (h : preCreate now c ix = .ok c1) :
     Sub c c1 ∧ (ix.unique = true →
